@@ -8,5 +8,5 @@ Extraction "model.ml"
   enc_val dec_val dec_generated_file dec_diagnostic dec_level dec_reply seq_reservation str_reservation
   bstep astep vstep vastep rstep init ainit vinit render ranges
   parse render_opt
-  detect_prog chain_fields gcyclic resolve_alias resolve visit_file preorder tree_of_file declared check level_of totals emit_json emit_human get_totals dec_request request_ids_wellfounded conv_file check_attributes parse_comment tag_lints resolve_link lex_line parse_text parse_blocks lex_blocks prim_name generation_runs exit_status error_count gen_results resolve_files parses redef_report sc_lookup sc_table locate locate_unscoped concerned
+  detect_prog chain_fields gcyclic resolve_alias resolve visit_file preorder tree_of_file declared check level_of totals emit_json emit_human get_totals dec_request request_ids_wellfounded conv_file check_attributes parse_comment tag_lints resolve_link lex_line parse_text parse_blocks lex_blocks prim_name generation_runs exit_status error_count gen_results resolve_files parses redef_report sc_lookup sc_table sc_table_with locate locate_unscoped concerned
   run_text run_text_spec split_lines line_start_loc classify.
